@@ -139,7 +139,10 @@ static bool run_once(double dt, const double y0) {
     if (ret == NAUNET_SUCCESS) {
         S.succ++;
         double got = y[0] - y0;
-        if (!(fabs(got - dt) <= 1e-9 * dt)) { snprintf(buf, sizeof buf, "returned SUCCESS but integrated %.17g of the requested %.17g (ratio %.12g)", got, dt, got / dt); why = buf; }
+        int worst = 0;   /* every equation (species and, if present, the temperature) must have advanced by dt */
+        for (int i = 0; i < NEQUATIONS; i++) if (fabs((y[i] - y0) - dt) > fabs((y[worst] - y0) - dt)) worst = i;
+        got = y[worst] - y0;
+        if (!(fabs(got - dt) <= 1e-9 * dt)) { snprintf(buf, sizeof buf, "returned SUCCESS but integrated %.17g of the requested %.17g (ratio %.12g) in equation %d of %d", got, dt, got / dt, worst, (int)NEQUATIONS); why = buf; }
         else if (!last_ok) { snprintf(buf, sizeof buf, "returned SUCCESS although the last integrator answer was the failure %d", M.last_ret); why = buf; }
     } else if (ret == NAUNET_FAIL) {
         S.fail++;
